@@ -194,6 +194,26 @@ TEMPLATES = [
 ]
 
 
+# context-dependent atoms wrapped in every pair of constructors: a cache on any constructor token
+# (map / array / inline function / binder) that survives an evaluation shows up in the second one
+ATOMS = ['$x', '//a/@v', 'count(//a) + $y']
+WRAPPERS = [
+    ('3.1', 'map{{"k": {0}}}?k'), ('3.1', '[{0}]?1'), ('3.1', 'array{{{0}}}?1'), ('3.1', 'map{{"k": [{0}]}}?k?1'),
+    ('3.1', '[map{{"k": {0}}}]?1?k'), ('3.1', 'map:get(map{{1: {0}}}, 1)'), ('3.1', 'array:get([{0}, 0], 1)'),
+    ('3.0', '(function() {{ {0} }})()'), ('3.0', 'let $z := {0} return $z'), ('2.0', 'for $z in {0} return $z'),
+    ('2.0', '({0})[1]'), ('3.0', 'for-each({0}, function($q) {{ $q }})'),
+]
+
+
+def generated_templates():
+    out = []
+    for a in ATOMS:
+        for v1, w1 in WRAPPERS:
+            for v2, w2 in WRAPPERS:
+                out.append((max(v1, v2), w2.format(w1.format(a))))
+    return out
+
+
 def proj_result(res):
     """Comparable, context-independent projection of an API result."""
     if not isinstance(res, list):
@@ -332,7 +352,7 @@ def run(chk: core.Check) -> None:
     chk.add('transitions', len(g2.edges))
     rnd = random.Random(chk.seed)
     binder_progs = [p for p in progs if p[2] != 'seed']
-    pool = [(v, t) for v, t in TEMPLATES]
+    pool = [(v, t) for v, t in TEMPLATES] + generated_templates()
     from elementpath.exceptions import ElementPathError
     want = 24 if chk.tier == 'quick' else 120
     for e, val, w in rnd.sample(binder_progs, len(binder_progs)):
